@@ -52,8 +52,8 @@ PLAN["C03"] = {
     "assumptions": COMMON_ASSUMPTIONS,
     "claim": "Every automaton of the finite domains; the size-shortcut shape (|reachable| = |rule owners| with different sets) is a mandatory outcome class.",
     "technique": "bounded exhaustive enumeration of automata against reference reachability/productivity fixpoints",
-    "quick": [("rel", "c03.n3s3pk4"), ("rel", "c03.n2s3k6"), ("rel", "c03.n3afhk3"), ("rel", "c03.n4afhk3")],
-    "thorough": [("rel", "c03.n3s3pk5"), ("rel", "c03.n2s3k7"), ("rel", "c03.n4agk4"), ("rel", "c03.n3afhk3"), ("rel", "c03.n4afhk3")],
+    "quick": [("rel", "c03.n3s3pk4"), ("rel", "c03.n2s3k6"), ("rel", "c03.n3afhk3"), ("rel", "c03.n4afhk3"), ("rel", "c03.n4abfk5")],
+    "thorough": [("rel", "c03.n3s3pk5"), ("rel", "c03.n2s3k7"), ("rel", "c03.n4agk4"), ("rel", "c03.n3afhk3"), ("rel", "c03.n4afhk3"), ("rel", "c03.n4abfk5"), ("rel", "c03.n5abfk4")],
     "require": {"all": ["class_equal_counts_different_sets", "class_unreachable_rule_owner", "class_final_without_rules", "class_no_final", "lang_empty", "lang_nonempty"]},
 }
 
@@ -113,8 +113,8 @@ PLAN["C15"] = {
     "assumptions": COMMON_ASSUMPTIONS,
     "claim": "Every automaton of the finite domains; leaf-only languages, languages without accepted leaf and unproductive final states are mandatory outcome classes.",
     "technique": "bounded exhaustive enumeration of automata against reference inclusion/emptiness",
-    "quick": [("rel", "c15.n3s3pk4"), ("rel", "c15.n2s3k6"), ("rel", "c15.n3afhk3"), ("rel", "c15.n4afhk3")],
-    "thorough": [("rel", "c15.n3s3pk5"), ("rel", "c15.n2s3k7"), ("rel", "c15.n4agk4"), ("rel", "c15.n3afhk3"), ("rel", "c15.n4afhk3")],
+    "quick": [("rel", "c15.n3s3pk4"), ("rel", "c15.n2s3k6"), ("rel", "c15.n3afhk3"), ("rel", "c15.n4afhk3"), ("rel", "c15.n4abfk5")],
+    "thorough": [("rel", "c15.n3s3pk5"), ("rel", "c15.n2s3k7"), ("rel", "c15.n4agk4"), ("rel", "c15.n3afhk3"), ("rel", "c15.n4afhk3"), ("rel", "c15.n4abfk5"), ("rel", "c15.n5abfk4")],
     "require": {"all": ["class_leaf_only_language", "class_no_leaf_accepted", "class_unproductive_final", "lang_empty"]},
 }
 
